@@ -256,7 +256,13 @@ struct SessionResult {
 fn random_session(seed: u64, case: u64, len: u64) -> SessionResult {
     let mut rng = Rng::fork(seed, case);
     let pick_window = |rng: &mut Rng| -> u32 {
-        if rng.chance(0.7) { *rng.pick(&WINDOWS) } else { rng.below(121) as u32 }
+        if cfg!(miri) {
+            *rng.pick(&WINDOWS[..4])
+        } else if rng.chance(0.7) {
+            *rng.pick(&WINDOWS)
+        } else {
+            rng.below(121) as u32
+        }
     };
     let mfd = pick_window(&mut rng);
     let ooo = pick_window(&mut rng);
@@ -278,7 +284,7 @@ fn random_session(seed: u64, case: u64, len: u64) -> SessionResult {
         }
     }
     plan.sort();
-    let max_gen = (len + 40 * mfd as u64 + 400) as usize;
+    let max_gen = if cfg!(miri) { (len + 3 * mfd as u64 + 16) as usize } else { (len + 40 * mfd as u64 + 400) as usize };
     let sender = sender_chain(secret, max_gen);
 
     let mut y = DecryptionRatchet::init(secret32(secret));
@@ -288,7 +294,7 @@ fn random_session(seed: u64, case: u64, len: u64) -> SessionResult {
     let mut requests: Vec<u64> = Vec::new();
     let mut max_retained: i64 = i64::MIN;
 
-    let mut issue = |g: u64, y: &mut DecryptionRatchetState, model: &mut Model, requests: &mut Vec<u64>, c: &mut Counters, viol: &mut Vec<Viol>| {
+    let issue = |g: u64, y: &mut DecryptionRatchetState, model: &mut Model, requests: &mut Vec<u64>, c: &mut Counters, viol: &mut Vec<Viol>| {
         if g as usize >= sender.len() {
             return;
         }
